@@ -742,10 +742,10 @@ let rec gw_words fuel idx j p out =
 
 (** val get_word : z -> buf -> z list option res **)
 
-let get_word idx str0 =
-  bind (strlen str0) (fun l ->
+let get_word idx str =
+  bind (strlen str) (fun l ->
     bind (wrn (repeat None (S l)) O Z0) (fun out0 ->
-      bind (gw_words (S (length str0)) idx Z0 str0 out0) (fun x ->
+      bind (gw_words (S (length str)) idx Z0 str out0) (fun x ->
         let (j, out) = x in
         if Z.eqb j idx
         then bind (strlen out) (fun l2 -> Ok (Some
@@ -797,10 +797,10 @@ let rec pw_words fuel idx j p off =
 
 (** val get_pword : z -> buf -> z option res **)
 
-let get_pword idx str0 =
-  bind (pw_space str0 Z0) (fun x ->
+let get_pword idx str =
+  bind (pw_space str Z0) (fun x ->
     let (p0, o0) = x in
-    bind (pw_words (S (length str0)) idx (Zpos XH) p0 o0) (fun x0 ->
+    bind (pw_words (S (length str)) idx (Zpos XH) p0 o0) (fun x0 ->
       let (p1, o1) = x0 in
       bind (rdn p1 O) (fun c ->
         if is_q c
@@ -902,9 +902,7 @@ let open_fgets_size =
 let conf_path_max =
   Zpos (XO (XO (XO (XO (XO (XO (XO (XO (XO (XO (XO (XO XH))))))))))))
 
-type str = z list
-
-(** val list_eqb : str -> str -> bool **)
+(** val list_eqb : z list -> z list -> bool **)
 
 let rec list_eqb a b =
   match a with
@@ -916,22 +914,22 @@ let rec list_eqb a b =
      | [] -> false
      | y :: b' -> (&&) (Z.eqb x y) (list_eqb a' b'))
 
-(** val ci_eq : str -> str -> bool **)
+(** val ci_eq : z list -> z list -> bool **)
 
 let ci_eq a b =
   list_eqb (map tolower a) (map tolower b)
 
-(** val beg_ci : str -> str -> bool **)
+(** val beg_ci : z list -> z list -> bool **)
 
 let beg_ci lit s =
   ci_eq lit (firstn (length lit) s)
 
-(** val has_byte : z -> str -> bool **)
+(** val has_byte : z -> z list -> bool **)
 
 let has_byte c s =
   existsb (Z.eqb c) s
 
-(** val s_include : str **)
+(** val s_include : z list **)
 
 let s_include =
   (Zpos (XI (XO (XO (XI (XO (XI XH))))))) :: ((Zpos (XO (XI (XI (XI (XO (XI
@@ -941,7 +939,7 @@ let s_include =
     (XI (XO (XO (XI XH))))))) :: ((Zpos (XO (XO (XO (XO (XO
     XH)))))) :: [])))))))
 
-(** val s_preproc : str **)
+(** val s_preproc : z list **)
 
 let s_preproc =
   (Zpos (XO (XO (XO (XO (XI (XI XH))))))) :: ((Zpos (XO (XI (XO (XO (XI (XI
@@ -951,7 +949,7 @@ let s_preproc =
     (XO (XO (XO (XI XH))))))) :: ((Zpos (XO (XO (XO (XO (XO
     XH)))))) :: [])))))))
 
-(** val s_begin : str **)
+(** val s_begin : z list **)
 
 let s_begin =
   (Zpos (XO (XI (XO (XO (XO (XI XH))))))) :: ((Zpos (XI (XO (XI (XO (XO (XI
@@ -959,27 +957,27 @@ let s_begin =
     (XO (XI (XO (XI XH))))))) :: ((Zpos (XO (XI (XI (XI (XO (XI
     XH))))))) :: ((Zpos (XO (XO (XO (XO (XO XH)))))) :: [])))))
 
-(** val s_end_sp : str **)
+(** val s_end_sp : z list **)
 
 let s_end_sp =
   (Zpos (XI (XO (XI (XO (XO (XI XH))))))) :: ((Zpos (XO (XI (XI (XI (XO (XI
     XH))))))) :: ((Zpos (XO (XO (XI (XO (XO (XI XH))))))) :: ((Zpos (XO (XO
     (XO (XO (XO XH)))))) :: [])))
 
-(** val s_end : str **)
+(** val s_end : z list **)
 
 let s_end =
   (Zpos (XI (XO (XI (XO (XO (XI XH))))))) :: ((Zpos (XO (XI (XI (XI (XO (XI
     XH))))))) :: ((Zpos (XO (XO (XI (XO (XO (XI XH))))))) :: []))
 
-(** val s_null : str **)
+(** val s_null : z list **)
 
 let s_null =
   (Zpos (XO (XI (XI (XI (XO (XI XH))))))) :: ((Zpos (XI (XO (XI (XO (XI (XI
     XH))))))) :: ((Zpos (XO (XO (XI (XI (XO (XI XH))))))) :: ((Zpos (XO (XO
     (XI (XI (XO (XI XH))))))) :: [])))
 
-(** val s_preproc_tmpl : str **)
+(** val s_preproc_tmpl : z list **)
 
 let s_preproc_tmpl =
   (Zpos (XI (XO (XI (XO (XO (XO XH))))))) :: ((Zpos (XO (XO (XI (XO (XI (XI
@@ -993,7 +991,7 @@ let s_preproc_tmpl =
     (XO (XO (XO (XI XH))))))) :: ((Zpos (XI (XO (XI (XI (XO
     XH)))))) :: [])))))))))))))
 
-(** val cstring : buf -> str res **)
+(** val cstring : buf -> z list res **)
 
 let rec cstring = function
 | [] -> Fault OOB_read
@@ -1003,25 +1001,48 @@ let rec cstring = function
      if Z.eqb c Z0 then Ok [] else bind (cstring t) (fun r -> Ok (c :: r))
    | None -> Fault Uninit_read)
 
-(** val put_str : buf -> str -> buf res **)
+(** val put_at : buf -> cell list -> buf res **)
+
+let rec put_at b = function
+| [] -> Ok b
+| c :: cs' ->
+  (match b with
+   | [] -> Fault OOB_write
+   | _ :: b' -> bind (put_at b' cs') (fun r -> Ok (c :: r)))
+
+(** val put_str : buf -> z list -> buf res **)
 
 let put_str b s =
-  put_cells b O (app (bytes s) ((Some Z0) :: []))
+  put_at b (app (bytes s) ((Some Z0) :: []))
+
+(** val chomp_line : buf -> buf res **)
+
+let chomp_line b =
+  bind (strlen b) (fun l ->
+    bind (chomp (firstn (S l) b)) (fun r -> Ok (app r (skipn (S l) b))))
+
+(** val get_word_line : z -> buf -> z list option res **)
+
+let get_word_line idx b =
+  bind (strlen b) (fun l -> get_word idx (firstn (S l) b))
+
+(** val get_pword_line : z -> buf -> z option res **)
+
+let get_pword_line idx b =
+  bind (strlen b) (fun l -> get_pword idx (firstn (S l) b))
 
 type stream = { sdata : z list; seof : bool }
 
-(** val take_line : nat -> z list -> z list * z list **)
+(** val take_line : z -> z list -> z list * z list **)
 
-let rec take_line n0 d =
-  match n0 with
-  | O -> ([], d)
-  | S n' ->
-    (match d with
-     | [] -> ([], [])
-     | c :: t ->
-       if Z.eqb c (Zpos (XO (XI (XO XH))))
+let rec take_line n0 d = match d with
+| [] -> ([], [])
+| c :: t ->
+  if Z.leb n0 Z0
+  then ([], d)
+  else if Z.eqb c (Zpos (XO (XI (XO XH))))
        then ((c :: []), t)
-       else let (a, r) = take_line n' t in ((c :: a), r))
+       else let (a, r) = take_line (Z.sub n0 (Zpos XH)) t in ((c :: a), r)
 
 (** val ends_nl : z list -> bool **)
 
@@ -1036,8 +1057,7 @@ let fgets size st =
   match st.sdata with
   | [] -> (None, { sdata = []; seof = true })
   | _ :: _ ->
-    let (chunk, rest) = take_line (Z.to_nat (Z.sub size (Zpos XH))) st.sdata
-    in
+    let (chunk, rest) = take_line (Z.sub size (Zpos XH)) st.sdata in
     let hit =
       match rest with
       | [] ->
@@ -1123,21 +1143,21 @@ type hfun =
 type harg =
 | HBegin
 | HEnd
-| HText of str
+| HText of z list
 
 type event =
 | EvCall of hfun * harg * z * z
-| EvSpawn of str
+| EvSpawn of z list
 
-type ctx_t = { cx_name : str option; cx_fun : hfun }
+type ctx_t = { cx_name : z list option; cx_fun : hfun }
 
 type cst_t = { cs_id : z; cs_state : z }
 
-type fst_t = { f_fp : stream option; f_path : str option;
-               f_outfile : str option; f_line : z; f_skip : bool;
+type fst_t = { f_fp : stream option; f_path : z list option;
+               f_outfile : z list option; f_line : z; f_skip : bool;
                f_preproc : bool; f_owned : bool }
 
-type bi_t = str option
+type bi_t = z list option
 
 (** val zero_ctx : ctx_t **)
 
@@ -1211,7 +1231,7 @@ let conf0 vnull =
   { cxt = null_table; cst = null_table; ftb = null_table; bit = null_table;
     vars = vnull; nopen = Z0; live = Z0 }
 
-(** val register_builtin : 'a1 conf -> str -> ('a1 conf * z) res **)
+(** val register_builtin : 'a1 conf -> z list -> ('a1 conf * z) res **)
 
 let register_builtin c name =
   let t = c.bit in
@@ -1245,7 +1265,7 @@ let register_builtin c name =
                 (XO (XO XH)))))))))))
      | None -> Fault Null_deref))
 
-(** val predefined : str list **)
+(** val predefined : z list list **)
 
 let predefined =
   ((Zpos (XI (XO (XO (XO (XO (XI XH))))))) :: ((Zpos (XO (XO (XO (XO (XI (XI
@@ -1275,7 +1295,7 @@ let predefined =
     (XO (XO (XO (XI XH))))))) :: ((Zpos (XO (XI (XI (XI (XO (XI
     XH))))))) :: []))))))) :: []))))))
 
-(** val register_builtins : 'a1 conf -> str list -> 'a1 conf res **)
+(** val register_builtins : 'a1 conf -> z list list -> 'a1 conf res **)
 
 let rec register_builtins c = function
 | [] -> Ok c
@@ -1302,7 +1322,7 @@ let init_subsystem c =
     in
     register_builtins c1 (firstn (Z.to_nat builtin_predefined) predefined))
 
-(** val register_context : 'a1 conf -> str -> z -> ('a1 conf * z) res **)
+(** val register_context : 'a1 conf -> z list -> z -> ('a1 conf * z) res **)
 
 let register_context c name h =
   if negb (ci_eq name s_null)
@@ -1339,7 +1359,8 @@ let register_context_state c id =
   bind (t_set t t.t_idx { cs_id = id; cs_state = Z0 }) (fun t' -> Ok
     (add_live (with_cst c t') (Z.sub (blk t.t_mem) (blk t0.t_mem))))
 
-(** val free_names : ('a1 -> str option) -> 'a1 table -> z -> nat -> z res **)
+(** val free_names :
+    ('a1 -> z list option) -> 'a1 table -> z -> nat -> z res **)
 
 let rec free_names name_of t from = function
 | O -> Ok Z0
@@ -1420,7 +1441,7 @@ let call handler c w id a s =
       let (s', w') = handler k a s w in
       Ok ((s', w'), ((EvCall ((HUser k), a, s, s')) :: [])))
 
-(** val name_to_id : 'a1 conf -> str -> z -> nat -> z res **)
+(** val name_to_id : 'a1 conf -> z list -> z -> nat -> z res **)
 
 let rec name_to_id c name i = function
 | O -> Ok Z0
@@ -1432,7 +1453,7 @@ let rec name_to_id c name i = function
     | None -> Fault Null_deref)
 
 (** val ctx_begin :
-    (z -> harg -> z -> 'a1 -> z * 'a1) -> 'a2 conf -> 'a1 -> str -> (('a2
+    (z -> harg -> z -> 'a1 -> z * 'a1) -> 'a2 conf -> 'a1 -> z list -> (('a2
     conf * 'a1) * event list) res **)
 
 let ctx_begin handler c w name =
@@ -1469,14 +1490,14 @@ let ctx_end handler c w id =
                        false; f_preproc = f.f_preproc; f_owned = f.f_owned })
                      (fun c4 -> Ok ((c4, w'), ev))))))))
 
-(** val magic : str -> str **)
+(** val magic : z list -> z list **)
 
 let magic progname =
   firstn (Z.to_nat (Z.sub open_test_size (Zpos XH))) ((Zpos (XO (XO (XI (XI
     (XI XH)))))) :: (app progname ((Zpos (XI (XO (XI (XI (XO XH)))))) :: [])))
 
 (** val open_file :
-    (str -> z list option) -> str -> str option -> stream option res **)
+    (z list -> z list option) -> z list -> z list option -> stream option res **)
 
 let open_file fs progname = function
 | Some nm ->
@@ -1493,8 +1514,8 @@ let open_file fs progname = function
 | None -> Ok None
 
 (** val do_expand :
-    (str -> 'a1 -> (str * 'a1) * str list) -> 'a1 conf -> buf -> (('a1
-    conf * buf) * event list) res **)
+    (z list -> 'a1 -> (z list * 'a1) * z list list) -> 'a1 conf -> buf ->
+    (('a1 conf * buf) * event list) res **)
 
 let do_expand expand c buff =
   bind (cstring buff) (fun s ->
@@ -1504,9 +1525,10 @@ let do_expand expand c buff =
       (map (fun x -> EvSpawn x) cmds))))
 
 (** val parse_line :
-    (z -> harg -> z -> 'a1 -> z * 'a1) -> (str -> 'a2 -> (str * 'a2) * str
-    list) -> (str -> z list option) -> (str -> z list option) -> str -> 'a2
-    conf -> 'a1 -> buf -> ((('a2 conf * 'a1) * buf) * event list) res **)
+    (z -> harg -> z -> 'a1 -> z * 'a1) -> (z list -> 'a2 -> (z
+    list * 'a2) * z list list) -> (z list -> z list option) -> (z list -> z
+    list option) -> z list -> 'a2 conf -> 'a1 -> buf -> ((('a2
+    conf * 'a1) * buf) * event list) res **)
 
 let parse_line handler expand preproc_out fs progname c w buff =
   bind (rdn buff O) (fun c0 ->
@@ -1517,14 +1539,14 @@ let parse_line handler expand preproc_out fs progname c w buff =
     then Ok (((c, w), buff), [])
     else bind (cpeek c) (fun top ->
            let id = top.cs_id in
-           bind (chomp buff) (fun b1 ->
+           bind (chomp_line buff) (fun b1 ->
              bind (rdn b1 O) (fun c1 ->
                if (||) (Z.eqb c1 (Zpos (XI (XI (XO (XO (XO XH)))))))
                     (Z.eqb c1 Z0)
                then Ok (((c, w), b1), [])
                else bind (fpeek c) (fun f ->
                       if Z.eqb c1 (Zpos (XI (XO (XI (XO (XO XH))))))
-                      then bind (get_pword (Zpos XH) (skipn (S O) b1))
+                      then bind (get_pword_line (Zpos XH) (skipn (S O) b1))
                              (fun pw ->
                              match pw with
                              | Some off ->
@@ -1537,7 +1559,7 @@ let parse_line handler expand preproc_out fs progname c w buff =
                                         let (p, ev) = x in
                                         let (c2, b2) = p in
                                         bind
-                                          (get_word (Zpos (XO XH))
+                                          (get_word_line (Zpos (XO XH))
                                             (skipn (S O) b2)) (fun path ->
                                           bind (open_file fs progname path)
                                             (fun fp ->
@@ -1560,8 +1582,8 @@ let parse_line handler expand preproc_out fs progname c w buff =
                                       then if f.f_preproc
                                            then Ok (((c, w), b1), [])
                                            else bind
-                                                  (get_pword (Zpos (XO XH))
-                                                    b1) (fun pw2 ->
+                                                  (get_pword_line (Zpos (XO
+                                                    XH)) b1) (fun pw2 ->
                                                   bind
                                                     (match pw2 with
                                                      | Some o ->
@@ -1672,8 +1694,9 @@ let parse_line handler expand preproc_out fs progname c w buff =
                                 then Ok (((c, w), b1), [])
                                 else bind (cstring b1) (fun s ->
                                        if beg_ci s_begin s
-                                       then bind (get_word (Zpos (XO XH)) b1)
-                                              (fun name ->
+                                       then bind
+                                              (get_word_line (Zpos (XO XH))
+                                                b1) (fun name ->
                                               match name with
                                               | Some nm ->
                                                 bind
@@ -1712,16 +1735,16 @@ let set_fp f st line =
     line; f_skip = f.f_skip; f_preproc = f.f_preproc; f_owned = f.f_owned }
 
 (** val parse_loop :
-    (z -> harg -> z -> 'a1 -> z * 'a1) -> (str -> 'a2 -> (str * 'a2) * str
-    list) -> (str -> z list option) -> (str -> z list option) -> str -> nat
-    -> 'a2 conf -> 'a1 -> buf -> event list -> (('a2 conf * 'a1) * event
-    list) res **)
+    (z -> harg -> z -> 'a1 -> z * 'a1) -> (z list -> 'a2 -> (z
+    list * 'a2) * z list list) -> (z list -> z list option) -> (z list -> z
+    list option) -> z list -> nat -> bool -> 'a2 conf -> 'a1 -> buf -> event
+    list -> (('a2 conf * 'a1) * event list) res **)
 
-let rec parse_loop handler expand preproc_out fs progname fuel c w buff acc =
+let rec parse_loop handler expand preproc_out fs progname fuel inner c w buff acc =
   match fuel with
   | O -> Fault Out_of_fuel
   | S fuel' ->
-    if Z.eqb c.ftb.t_idx Z0
+    if (&&) (negb inner) (Z.eqb c.ftb.t_idx Z0)
     then Ok ((c, w), acc)
     else bind (fpeek c) (fun f ->
            match f.f_fp with
@@ -1749,7 +1772,7 @@ let rec parse_loop handler expand preproc_out fs progname fuel c w buff acc =
                                      (Z.pow (Zpos (XO XH)) (Zpos (XO (XO (XO
                                        (XO (XO XH)))))))))) (fun c2 ->
                                parse_loop handler expand preproc_out fs
-                                 progname fuel' c2 w b2 acc))
+                                 progname fuel' true c2 w b2 acc))
                       else bind
                              (parse_line handler expand preproc_out fs
                                progname c1 w b1) (fun x ->
@@ -1757,7 +1780,8 @@ let rec parse_loop handler expand preproc_out fs progname fuel c w buff acc =
                              let (p0, b2) = p in
                              let (c2, w') = p0 in
                              parse_loop handler expand preproc_out fs
-                               progname fuel' c2 w' b2 (rev_append ev acc)))))
+                               progname fuel' true c2 w' b2
+                               (rev_append ev acc)))))
               | None ->
                 bind (fpoke c (set_fp f st' f.f_line)) (fun c1 ->
                   let d =
@@ -1765,14 +1789,16 @@ let rec parse_loop handler expand preproc_out fs progname fuel c w buff acc =
                       (if f.f_owned then blk f.f_path else Z0)
                   in
                   parse_loop handler expand preproc_out fs progname fuel'
+                    false
                     (file_pop (add_open (add_live c1 (Z.opp d)) (Zneg XH))) w
                     buff acc))
            | None -> Fault Null_deref)
 
 (** val parse :
-    (z -> harg -> z -> 'a1 -> z * 'a1) -> (str -> 'a2 -> (str * 'a2) * str
-    list) -> (str -> z list option) -> (str -> z list option) -> str -> nat
-    -> 'a2 conf -> 'a1 -> str -> ((('a2 conf * 'a1) * event list) * bool) res **)
+    (z -> harg -> z -> 'a1 -> z * 'a1) -> (z list -> 'a2 -> (z
+    list * 'a2) * z list list) -> (z list -> z list option) -> (z list -> z
+    list option) -> z list -> nat -> 'a2 conf -> 'a1 -> z list -> ((('a2
+    conf * 'a1) * event list) * bool) res **)
 
 let parse handler expand preproc_out fs progname fuel c w name =
   bind (open_file fs progname (Some name)) (fun fp ->
@@ -1783,7 +1809,7 @@ let parse handler expand preproc_out fs progname fuel c w name =
           (Some name); f_outfile = None; f_line = (Zpos XH); f_skip = false;
           f_preproc = false; f_owned = false }) (fun c1 ->
         bind
-          (parse_loop handler expand preproc_out fs progname fuel c1 w
+          (parse_loop handler expand preproc_out fs progname fuel false c1 w
             (repeat None (Z.to_nat config_buff)) []) (fun x ->
           let (p, acc) = x in
           let (c2, w') = p in Ok (((c2, w'), (rev acc)), true)))
@@ -1792,10 +1818,10 @@ let parse handler expand preproc_out fs progname fuel c w name =
 type op =
 | OInit
 | OFree
-| ORegCtx of str * z
-| ORegBuiltin of str
-| OParse of nat * str
-| OOpen of str
+| ORegCtx of z list * z
+| ORegBuiltin of z list
+| OParse of nat * z list
+| OOpen of z list
 
 type opres =
 | RUnit
@@ -1804,9 +1830,10 @@ type opres =
 | ROpen of bool
 
 (** val step :
-    'a2 -> (z -> harg -> z -> 'a1 -> z * 'a1) -> (str -> 'a2 ->
-    (str * 'a2) * str list) -> (str -> z list option) -> (str -> z list
-    option) -> str -> ('a2 conf * 'a1) -> op -> (('a2 conf * 'a1) * opres) res **)
+    'a2 -> (z -> harg -> z -> 'a1 -> z * 'a1) -> (z list -> 'a2 -> (z
+    list * 'a2) * z list list) -> (z list -> z list option) -> (z list -> z
+    list option) -> z list -> ('a2 conf * 'a1) -> op -> (('a2
+    conf * 'a1) * opres) res **)
 
 let step vnull handler expand preproc_out fs progname cw o =
   let (c, w) = cw in
@@ -1922,9 +1949,9 @@ let find_file flen dlen comps probe =
 let fresh_handler _ _ _ w =
   ((Z.add w (Zpos XH)), (Z.add w (Zpos XH)))
 
-type vstore = (str * str) list
+type vstore = (z list * z list) list
 
-(** val str_ltb : str -> str -> bool **)
+(** val str_ltb : z list -> z list -> bool **)
 
 let rec str_ltb a b =
   match a with
@@ -1936,7 +1963,7 @@ let rec str_ltb a b =
      | [] -> false
      | y :: b' -> (||) (Z.ltb x y) ((&&) (Z.eqb x y) (str_ltb a' b')))
 
-(** val store_put : vstore -> str -> str -> vstore **)
+(** val store_put : vstore -> z list -> z list -> vstore **)
 
 let rec store_put v k val0 =
   match v with
@@ -1949,7 +1976,7 @@ let rec store_put v k val0 =
          then (k, val0) :: v
          else (k', v') :: (store_put r k val0)
 
-(** val split_sp : str -> str * str **)
+(** val split_sp : z list -> z list * z list **)
 
 let rec split_sp = function
 | [] -> ([], [])
@@ -1958,14 +1985,15 @@ let rec split_sp = function
   then ([], t)
   else let (a, b) = split_sp t in ((c :: a), b)
 
-(** val ends_with_paren : str -> bool **)
+(** val ends_with_paren : z list -> bool **)
 
 let ends_with_paren s =
   match rev s with
   | [] -> false
   | c :: _ -> Z.eqb c (Zpos (XI (XO (XO (XI (XO XH))))))
 
-(** val expand_simple : str -> vstore -> (str * vstore) * str list **)
+(** val expand_simple :
+    z list -> vstore -> (z list * vstore) * z list list **)
 
 let expand_simple s v =
   match s with
@@ -2011,9 +2039,9 @@ let expand_simple s v =
 let vstore_blocks v =
   Z.mul (Zpos (XI XH)) (Z.of_nat (length v))
 
-type afs = (str * z list) list
+type afs = (z list * z list) list
 
-(** val afs_lookup : afs -> str -> z list option **)
+(** val afs_lookup : afs -> z list -> z list option **)
 
 let rec afs_lookup l n0 =
   match l with
@@ -2028,13 +2056,13 @@ type iconf = vstore conf
 let iconf0 =
   conf0 []
 
-(** val ipreproc : bool -> str -> z list option **)
+(** val ipreproc : bool -> z list -> z list option **)
 
 let ipreproc tmp_ok _ =
   if tmp_ok then Some [] else None
 
 (** val istep :
-    afs -> bool -> str -> (iconf * z) -> op -> ((iconf * z) * opres) res **)
+    afs -> bool -> z list -> (iconf * z) -> op -> ((iconf * z) * opres) res **)
 
 let istep files tmp_ok prog cw o =
   step [] fresh_handler expand_simple (ipreproc tmp_ok) (afs_lookup files)
